@@ -28,6 +28,8 @@ pub struct TThread {
     pub idx: usize,
     pub tid: i32,
     pub spin: bool,
+    /// a thread that is almost always the parent of a vfork child: it cannot stop until the child is gone
+    pub slow: bool,
     pub regs_addr: u64,
     pub pipe_w: i32,
     pub stack_lo: u64,
@@ -48,6 +50,8 @@ pub struct Target {
 }
 
 static LIVE_COUNTER: AtomicU64 = AtomicU64::new(0);
+/// set while a recorded dump request is executing; holds the kernel thread id of the dumping thread (0 otherwise)
+pub static DUMPER_TID: std::sync::atomic::AtomicI32 = std::sync::atomic::AtomicI32::new(0);
 
 impl Target {
     pub fn spawn(args: &[String]) -> Result<Target, String> {
@@ -74,7 +78,7 @@ impl Target {
         }
         let desc: Value = serde_json::from_str(&line).map_err(|e| format!("desc: {}", e))?;
         let pid = desc["pid"].as_i64().unwrap() as i32;
-        let threads = desc["threads"]
+        let threads: Vec<TThread> = desc["threads"]
             .as_array()
             .unwrap()
             .iter()
@@ -82,6 +86,7 @@ impl Target {
                 idx: t["idx"].as_u64().unwrap() as usize,
                 tid: t["tid"].as_i64().unwrap() as i32,
                 spin: t["spin"].as_i64().unwrap() != 0,
+                slow: t["spin"].as_i64().unwrap() == 2,
                 regs_addr: t["regs_addr"].as_u64().unwrap(),
                 pipe_w: t["pipe_w"].as_i64().unwrap() as i32,
                 stack_lo: t["stack_lo"].as_u64().unwrap(),
@@ -105,7 +110,11 @@ impl Target {
                 unsafe { libc::kill(pid, libc::SIGKILL) };
             });
         }
-        let mem = std::fs::File::open(format!("/proc/{}/mem", pid)).ok();
+        // through the last thread's task entry: the leader may be a zombie (no address space of its own to show)
+        let mem_tid = threads.last().map(|x: &TThread| x.tid).unwrap_or(pid);
+        let mem = std::fs::File::open(format!("/proc/{}/task/{}/mem", pid, mem_tid))
+            .or_else(|_| std::fs::File::open(format!("/proc/{}/mem", pid)))
+            .ok();
         let t = Target { child, pid, desc, desc_raw: line.trim().to_string(), threads, page, mem, done };
         t.wait_parked();
         Ok(t)
@@ -185,7 +194,7 @@ impl Target {
             let r = |off: u64| self.read_u64(t.regs_addr + off);
             parts.push(format!(
                 "{}:{}:{}:{}:{}:{}:{}:{}:{}:{}:{}:{}:{}:{}:{}:{}:{}:{}",
-                t.tid, t.spin as u8, if t.name_hex.is_empty() { "-".to_string() } else { t.name_hex.clone() },
+                t.tid, if t.slow { 2 } else { t.spin as u8 }, if t.name_hex.is_empty() { "-".to_string() } else { t.name_hex.clone() },
                 r(80), r(88), r(0), r(8), r(16), r(24), r(32), r(40), r(48), r(56), r(64),
                 0, 0, t.idx, r(384)
             ));
@@ -244,6 +253,8 @@ pub struct DumpCfg {
     pub direct_auxv: Option<(u64, u64, u64, u64)>,
     /// how long the dumper waits for the SIGSTOP to take effect (None: the library's default)
     pub stop_timeout_ns: Option<u64>,
+    /// requests made on the same configured writer before the recorded one (a writer may be reused)
+    pub pre_dumps: usize,
 }
 
 impl DumpCfg {
@@ -271,6 +282,9 @@ impl DumpCfg {
         }
         if let Some((a, b, c, d)) = self.direct_auxv {
             s.push_str(&format!(",auxv:{}:{}:{}:{}", a, b, c, d));
+        }
+        if self.pre_dumps > 0 {
+            s.push_str(&format!(",reused:{}", self.pre_dumps));
         }
         s
     }
@@ -490,9 +504,19 @@ pub fn dump_case(prop: &str, id: &str, t: &Target, cfg: &DumpCfg, dest: &mut Rec
     std::fs::write(format!("{}.fds", base), fds.join("\n")).ok();
     let thr = t.thread_field();
     let mut w = writer_for(t, cfg);
+    for _ in 0..cfg.pre_dumps {
+        let mut scratch = RecDest::new(vec![], 0);
+        let prev = std::panic::take_hook();
+        std::panic::set_hook(Box::new(|_| {}));
+        let _ = std::panic::catch_unwind(std::panic::AssertUnwindSafe(|| w.dump(&mut scratch)));
+        std::panic::set_hook(prev);
+        t.wait_parked();
+    }
     let prev = std::panic::take_hook();
     std::panic::set_hook(Box::new(|_| {}));
+    DUMPER_TID.store(unsafe { libc::syscall(libc::SYS_gettid) } as i32, Ordering::SeqCst);
     let res = std::panic::catch_unwind(std::panic::AssertUnwindSafe(|| w.dump(dest)));
+    DUMPER_TID.store(0, Ordering::SeqCst);
     std::panic::set_hook(prev);
     let (result, image) = match res {
         Ok(Ok(img)) => ("ok".to_string(), Some(img)),
